@@ -23,6 +23,7 @@ struct Key {
 	bool dated = false;
 	int kind = 0;		/* 1 date, 2 date-time, 3 time */
 	int64_t v = 0;
+	bool ymcw = false;
 	std::string raw;	/* the token as written, for dtest */
 };
 bool isdig(char c) { return c >= '0' && c <= '9'; }
@@ -35,6 +36,22 @@ Key line_key(const std::string &l)
 	for (size_t i = 0; i < n; i++) {
 		if (!isdig(l[i]) || (i > 0 && l[i - 1] != ' '))
 			continue;
+		if (i + 13 <= n && l[i + 4] == '-' && l[i + 7] == '-' && l[i + 10] == '-' && isdig(l[i + 11]) && isdig(l[i + 12]) &&
+		    (i + 13 == n || l[i + 13] == ' ')) {
+			/* year-month-count-weekday: the c-th w-day (1 = Monday .. 7 = Sunday) of the month */
+			int y = atoi(l.substr(i, 4).c_str()), m = atoi(l.substr(i + 5, 2).c_str()), c = atoi(l.substr(i + 8, 2).c_str()), w = atoi(l.substr(i + 11, 2).c_str());
+			if (m < 1 || m > 12 || c < 1 || c > 4 || w < 1 || w > 7)
+				return Key();
+			int64_t first = model::days_from_civil(y, (unsigned)m, 1);
+			unsigned wd1 = model::weekday(first);	/* 0 = Monday */
+			int64_t day = first + ((unsigned)(w - 1) + 7 - wd1) % 7 + 7 * (c - 1);
+			k.dated = true;
+			k.kind = 0;	/* own class, see kinds[] */
+			k.ymcw = true;
+			k.v = day * 86400;
+			k.raw = l.substr(i, 13);
+			return k;
+		}
 		if (i + 10 <= n && l[i + 4] == '-' && l[i + 7] == '-') {
 			bool ok = true;
 			for (int j : {0, 1, 2, 3, 5, 6, 8, 9})
@@ -109,6 +126,13 @@ struct SortEngine : Engine {
 		if (rev)
 			p.argv.push_back("-r");
 		int kind = (int)r.range(1, 4);	/* 4 = mixed */
+		bool ymcw = r.chance(1, 8);	/* month-count-weekday dates: the encoding is not monotone, comparison has its own code */
+		if (ymcw) {
+			kind = 5;
+			p.argv.push_back("-i");
+			p.argv.push_back("%Y-%m-%c-%w");
+			p.par["ymcw"] = "1";
+		}
 		size_t n;
 		unsigned vk = (unsigned)r.below(100);
 		if (vk < 60)
@@ -133,6 +157,8 @@ struct SortEngine : Engine {
 				char b[48];
 				if (r.chance(1, 10))
 					b[0] = 0;	/* no date on this line */
+				else if (k == 5)
+					snprintf(b, sizeof(b), "%04d-%02d-%02d-%02d", y0, 1 + (int)r.below(2), (int)r.range(1, 4), (int)r.range(1, 7));
 				else if (k == 1)
 					snprintf(b, sizeof(b), "%04d-%02d-%02d", y, m, d);
 				else if (k == 2)
@@ -196,7 +222,7 @@ struct SortEngine : Engine {
 
 	int dtest(const Plan &base, const std::string &a, const char *op, const std::string &b, Stats &st)
 	{
-		std::string key = a + op + b;
+		std::string key = a + op + b + (base.par.count("ymcw") ? "#ymcw" : "");
 		auto it = dtest_memo.find(key);
 		if (it != dtest_memo.end()) {
 			st.mix_value(it->second, key);
@@ -206,6 +232,8 @@ struct SortEngine : Engine {
 		q.engine = "sort";
 		q.variant = base.variant;
 		q.argv = {"dtest", a, op, b};
+		if (base.par.count("ymcw"))
+			q.argv.insert(q.argv.begin() + 1, {"-i", "%Y-%m-%c-%w"});
 		RunResult r = run_plan(q);
 		st.add_ref(r);
 		int rc = r.crashed() ? -1 : r.exit_code;
@@ -250,6 +278,8 @@ struct SortEngine : Engine {
 			st.named["reach_short_write"] += r.probes[P_WRITE_SHORT] ? 1 : 0;
 			if (p.ipar("stdin_closed"))
 				st.named["reach_started_without_stdin"]++;
+			if (p.par.count("ymcw"))
+				st.named["plans_with_month_count_weekday_dates"]++;
 			st.named["reach_vfork"] += r.probes[P_VFORK];
 			st.named["reach_exec"] += r.probes[P_EXEC];
 			st.named["reach_waitpid"] += r.probes[P_WAITPID];
